@@ -189,6 +189,29 @@ def run(ctx):
         n, s = escw[0]
         res.add(Finding('C08', 'C08.c', 'R-CONTAIN', wt.file, wt.qualname, wt.node.lineno, 'exception from %s ends the worker loop' % s.extra.get('exc_src'),
                         'an exception while serving one task terminates the worker: later recordings fail although they are fine', witness=dw.path_to(n, s)))
+    # what the worker answers with is what the routine returned: the success answer carries the routine's result object itself, not a
+    # version of it the worker edited (both modes must hand the caller the same comparison)
+    puts = [n for n in ast.walk(wt.node) if isinstance(n, ast.Call) and isinstance(n.func, ast.Attribute) and n.func.attr == 'put' and n.args and
+            isinstance(n.args[0], ast.Tuple) and len(n.args[0].elts) == 2 and isinstance(n.args[0].elts[0], ast.Constant) and n.args[0].elts[0].value is True]
+    okput = bool(puts)
+    whyput = ''
+    for pt in puts:
+        v_ = pt.args[0].elts[1]
+        if isinstance(v_, ast.Name):
+            binds = [n for n in walk_own(wt.node) if isinstance(n, (ast.Assign, ast.AugAssign)) and
+                     any(isinstance(t_, ast.Name) and t_.id == v_.id for t_ in (n.targets if isinstance(n, ast.Assign) else [n.target]))]
+            direct = len(binds) == 1 and isinstance(binds[0], ast.Assign) and isinstance(binds[0].value, ast.Call) and self_attr(binds[0].value.func) == pac.name
+            if not direct:
+                okput = False
+                whyput = '`%s` is bound %d times before it is answered' % (v_.id, len(binds))
+        elif not (isinstance(v_, ast.Call) and self_attr(v_.func) == pac.name):
+            okput = False
+            whyput = 'the answer is `%s`' % norm(v_)[:60]
+    cc.instance('worker answers with the routine\'s own result', wt.qualname, okput, detail=whyput)
+    if not okput:
+        res.add(Finding('C08', 'C08.c', 'R-CONTAIN', wt.file, wt.qualname, puts[0].lineno if puts else wt.node.lineno, norm(puts[0])[:100] if puts else 'worker answer',
+                        'the worker does not answer with the object the play-and-compare routine returned (%s): comparisons made in a dedicated process '
+                        'differ from those made in-process (e.g. the attached replay loses its outputs)' % whyput))
     # the serving loop has no way out except its own condition (the terminate event): a `return` / `break` after a task - e.g. after a
     # reported failure - leaves the parent with a handle to a worker that no longer serves
     wloops = [l for l in walk_own(wt.node) if isinstance(l, ast.While)]
